@@ -343,8 +343,32 @@ def apply_op(t, op, aux, rec):
     raise ValueError(name)
 
 
+def _run_profile(c):
+    """an in-place filter that empties an axis while 'empty' is set to raise: the call raises (after the table was
+    emptied - that is the unchanged behaviour), and the table it leaves behind must still be coherent; no model
+    side (the content model knows no error profile): the model's answer is the constant 'no failures'"""
+    from biom.err import errstate
+    from biom.exception import TableException
+    t = T.build(c['start'])
+    raised = False
+    with errstate(empty='raise'):
+        try:
+            if c['how'] == 'filter':
+                t.filter([], axis=c['axis'], inplace=True)
+            else:
+                t.filter(lambda v, i, m: False, axis=c['axis'], inplace=True)
+        except TableException:
+            raised = True
+    fails = coherence_failures(t, c.get('rot', 0))
+    if not raised:
+        fails.append("emptying an axis while empty='raise' did not raise")
+    return [['profile', fails]]
+
+
 def run_impl(c):
     try:
+        if c.get('kind') == 'profile':
+            return _run_profile(c)
         return _run(c)
     except Exception as e:  # harness bug
         import traceback
@@ -445,6 +469,9 @@ def _universe(c, recs):
 
 
 def encode(c):
+    if c.get('kind') == 'profile':
+        cd = BitCoder(T.spec_universe(c['start']), [v for row in c['start']['mat'] for v in row])
+        return [cd.table(T.norm_snap(T.spec_content(c['start']))), []]
     recs = _STASH.get(jhash(c), [])
     cd = BitCoder(_universe(c, recs), _values(c, recs))
     ops = []
@@ -482,6 +509,8 @@ def encode(c):
 
 
 def decode(tree, c):
+    if c.get('kind') == 'profile':
+        return [['profile', []]]
     recs = _STASH.get(jhash(c), [])
     cd = BitCoder(_universe(c, recs), _values(c, recs))
     out = []
@@ -509,6 +538,8 @@ def oracle(c, obs):
     if obs and obs[0] == 'crash':
         return ['harness/implementation crashed: %s' % obs[1:]]
     fails = []
+    if c.get('kind') == 'profile':
+        return ["after an in-place filter that emptied the %s axis under empty='raise': %s" % (c['axis'], x) for x in obs[0][1][:3]]
     for n, e in enumerate(obs):
         coh = e[2] if e[0] in ('start', 'ok') else e[3]
         if coh:
@@ -613,6 +644,10 @@ def gen(rng, tier):
     depth = 6 if tier == 'quick' else 10
     for _ in range(n):
         yield gen_case(rng, depth)
+    for k in range(16 if tier == 'quick' else 160):
+        start = T.rand_spec(rng, max_r=3, max_c=3, values='counts', md=rng.choice(['none', 'group']), alphabet='short')
+        yield {'kind': 'profile', 'start': start, 'axis': ['observation', 'sample'][k % 2], 'how': ['filter', 'pred'][(k // 2) % 2],
+               'rot': k % 5, 'ops': []}
     if tier == 'thorough':
         import random
         r2 = random.Random(7)
@@ -629,6 +664,8 @@ def nontrivial(c):
 
 
 def classify(c):
+    if c.get('kind') == 'profile':
+        return ['profile:empty-raise:' + c['axis']]
     tags = ['depth:%d' % len(c['ops'])] + ['op:' + o[0] for o in c['ops']]
     recs = _STASH.get(jhash(c), [])
     tags += ['step:err' if r.get('err') else 'step:ok' for r in recs]
@@ -636,6 +673,8 @@ def classify(c):
 
 
 def shrink(c):
+    if c.get('kind') == 'profile':
+        return
     ops = c['ops']
     for i in range(len(ops)):
         yield dict(c, ops=ops[:i] + ops[i + 1:])
